@@ -2,7 +2,12 @@
 from pyvc.cdef import Contract, LoopSpec
 import specs.refsem as R
 
-SCHEMA = {}
+SCHEMA = {
+    'Condition': {'left_param': 'str', 'operator': 'str', 'right_param': ('opt', 'str'), 'right_value': ('opt', 'str'),
+                  'left_use_calibrated_value': 'bool', 'right_use_calibrated_value': 'bool'},
+    'Comparison': {'required_value': 'str', 'referenced_parameter': 'str', 'operator': 'str',
+                   'use_calibrated_value': 'bool'},
+}
 NATIVE_ENV = {k: getattr(R, k) for k in dir(R) if not k.startswith('_')}
 
 PENDING = ("contract evaluated by the bounded native stand-in only: the criteria semantics are stated over dynamically "
@@ -187,20 +192,35 @@ def _build_lookup(r):
     return {'make': make}
 
 
+# packets whose values are of the classes C06 speaks about (int / float / text; raw values int / float / text)
+PKT_C06 = ('mobj', 'CCSDSPacket', {'__items__': ('odict', {'kinds': ['IntParameter', 'FloatParameter', 'StrParameter'],
+                                                         'rawkinds': ['int', 'real', 'str']})})
+OP_VALID = ' or '.join(f"self.operator == '{o}'" for o in OPS)
+
 CONTRACTS = [
     Contract(
         target='xtce.comparisons.Comparison.evaluate',
         props=['C06', 'C05', 'C07', 'C08', 'C01'],
-        params={}, native_only=PENDING,
-        # bool-valued parameters are left unspecified (XTCE does not say how a literal denotes a boolean)
-        requires=['comparison_in_scope(self, packet, current_parsed_value)'],
+        params={'self': ('rec', 'Comparison'), 'packet': PKT_C06},
+        variants={'no_current': {'params': {'current_parsed_value': 'none'}},
+                  'current_int': {'params': {'current_parsed_value': 'int'}},
+                  'current_float': {'params': {'current_parsed_value': 'real'}}},
+        returns='bool',
+        # class invariant established by Comparison._validate: the operator is one of the accepted spellings;
+        # bool- and bytes-valued operands are outside the statement (the packet type above / the native scope predicate)
+        requires=[(OP_VALID, ['__proof__']),
+                  ('comparison_in_scope(self, packet, current_parsed_value)', ['__native__'])],
         ensures={
-            # C06: the truth value of the stated relation, literal interpreted in the type of the selected value
-            'truth': '(result is True or result is False) and result == ref_comparison(self, packet, current_parsed_value)',
+            # C06 (PROVED): a genuine bool equal to the stated relation applied to the selected value and the literal
+            # interpreted in the type of that value - for EVERY value, zero / negative / empty included
+            'truth': ('result == sem_comparison(self, packet, current_parsed_value)', ['__proof__']),
+            # native: against the independent reference with exact rational comparison
+            'truth_exact': ('(result is True or result is False) and '
+                            'result == ref_comparison(self, packet, current_parsed_value)', ['__native__']),
         },
         raises={
-            'ComparisonError': "outcome(ref_comparison(self, packet, current_parsed_value)) == 'ComparisonError'",
-            'ValueError': "outcome(ref_comparison(self, packet, current_parsed_value)) == 'ValueError'",
+            'ComparisonError': 'not coercible(selected_value(self, packet, current_parsed_value), self.required_value)',
+            'ValueError': 'not (self.referenced_parameter in packet) and current_parsed_value is None',
         },
         modifies=[],
         native={'gen': _gen_comparison, 'build': _build_comparison},
@@ -208,14 +228,28 @@ CONTRACTS = [
     Contract(
         target='xtce.comparisons.Condition.evaluate',
         props=['C06', 'C05', 'C08', 'C01'],
-        params={}, native_only=PENDING,
+        params={'self': ('rec', 'Condition'), 'packet': PKT_C06, 'current_parsed_value': 'none'},
+        returns='bool',
         # operands of the same kind (both numeric - int versus float included - or both text); other mixtures are
-        # outside the property statement
-        requires=['condition_in_scope(self, packet)'],
-        ensures={'truth': '(result is True or result is False) and result == ref_condition(self, packet)'},
+        # outside the property statement.  The operator spelling is validated by Condition._validate.
+        requires=[(OP_VALID, ['__proof__']),
+                  ('implies(self.left_param in packet and (is_none(self.right_param) or self.right_param in packet) and '
+                   '(not is_none(self.right_param) or (not is_none(self.right_value) and '
+                   ' coercible(cond_side(packet, self.left_param, self.left_use_calibrated_value), self.right_value))), '
+                   'comparable(cond_side(packet, self.left_param, self.left_use_calibrated_value), cond_right(self, packet)))',
+                   ['__proof__']),
+                  ('condition_in_scope(self, packet)', ['__native__'])],
+        ensures={
+            # PROVED: a genuine bool (never NotImplemented) equal to the relation over the two selected operands,
+            # int-versus-float operands compared mathematically
+            'truth': ('result == sem_condition(self, packet)', ['__proof__']),
+            'truth_exact': ('(result is True or result is False) and result == ref_condition(self, packet)', ['__native__']),
+        },
         raises={
-            'ComparisonError': "outcome(ref_condition(self, packet)) == 'ComparisonError'",
-            'ValueError': "outcome(ref_condition(self, packet)) == 'ValueError'",
+            'ComparisonError': ('not (self.left_param in packet) or '
+                                '(not is_none(self.right_param) and not (self.right_param in packet))'),
+            'ValueError': ('self.left_param in packet and is_none(self.right_param) and (is_none(self.right_value) or '
+                           'not coercible(cond_side(packet, self.left_param, self.left_use_calibrated_value), self.right_value))'),
         },
         modifies=[],
         native={'gen': _gen_condition, 'build': _build_condition},
